@@ -199,6 +199,8 @@ pub struct SinkState {
     pub trace: Vec<String>,
     /// calls made after the first hard failure was returned
     pub calls_after_fail: usize,
+    /// number of raw calls made by API calls (calls made later, by `Drop`, are not part of the trace)
+    pub api_calls: Option<usize>,
 }
 
 #[derive(Clone)]
@@ -212,7 +214,15 @@ impl FaultSink {
         self.0.lock().unwrap().data.clone()
     }
     pub fn trace(&self) -> Vec<String> {
-        self.0.lock().unwrap().trace.clone()
+        let st = self.0.lock().unwrap();
+        st.trace[..st.api_calls.unwrap_or(st.trace.len())].to_vec()
+    }
+    /// the writer's API calls are over; what follows comes from `Drop`
+    pub fn mark_done(&self) {
+        let mut st = self.0.lock().unwrap();
+        if st.api_calls.is_none() {
+            st.api_calls = Some(st.trace.len());
+        }
     }
     pub fn failed(&self) -> bool {
         self.0.lock().unwrap().failed
@@ -231,6 +241,11 @@ impl Write for FaultSink {
             st.calls_after_fail += 1;
             return Err(io::Error::other("injected: sink is gone"));
         }
+        if st.api_calls.is_some() {
+            // a call made by `Drop` after the API calls are over: cannot be reported, no fault
+            st.data.extend_from_slice(buf);
+            return Ok(buf.len());
+        }
         let r = if st.pos < st.sched.len() { st.sched[st.pos] } else { Resp::Ok };
         st.pos += 1;
         match r {
@@ -241,6 +256,10 @@ impl Write for FaultSink {
             Resp::Short(n) => {
                 let n = n.min(buf.len());
                 st.data.extend_from_slice(&buf[..n]);
+                if n == 0 {
+                    // a full sink stays full: `Ok(0)` is a hard fault (`WriteZero`)
+                    st.failed = true;
+                }
                 Ok(n)
             }
             Resp::Interrupted => Err(io::Error::new(io::ErrorKind::Interrupted, "injected: interrupted")),
@@ -362,19 +381,44 @@ impl<R: Seek> Seek for FaultRead<R> {
 
 // -------------------------------------------------------------------------------- misc
 
-/// run `f` on a fresh thread; `HANG` if it does not finish within `secs`
-pub fn with_timeout<F: FnOnce() -> String + Send + 'static>(secs: u64, f: F) -> String {
-    let (tx, rx) = std::sync::mpsc::channel();
+type Job = Box<dyn FnOnce() -> String + Send + 'static>;
+struct Worker {
+    tx: std::sync::mpsc::Sender<Job>,
+    rx: std::sync::mpsc::Receiver<String>,
+}
+fn spawn_worker() -> Worker {
+    let (jtx, jrx) = std::sync::mpsc::channel::<Job>();
+    let (rtx, rrx) = std::sync::mpsc::channel::<String>();
     std::thread::Builder::new()
         .stack_size(16 << 20)
         .spawn(move || {
-            let r = vcommon::guarded(f);
-            let _ = tx.send(r);
+            while let Ok(job) = jrx.recv() {
+                let r = vcommon::guarded(job);
+                if rtx.send(r).is_err() {
+                    break;
+                }
+            }
         })
         .expect("spawn");
-    match rx.recv_timeout(std::time::Duration::from_secs(secs)) {
+    Worker { tx: jtx, rx: rrx }
+}
+
+/// run `f` on the worker thread; `HANG` if it does not finish within `secs` (the stuck worker
+/// is abandoned and a new one is started)
+pub fn with_timeout<F: FnOnce() -> String + Send + 'static>(secs: u64, f: F) -> String {
+    static W: Mutex<Option<Worker>> = Mutex::new(None);
+    let mut g = W.lock().unwrap();
+    if g.is_none() {
+        *g = Some(spawn_worker());
+    }
+    let w = g.as_ref().unwrap();
+    w.tx.send(Box::new(f)).expect("worker alive");
+    match w.rx.recv_timeout(std::time::Duration::from_secs(secs)) {
         Ok(s) => s,
-        Err(_) => "HANG".to_string(),
+        Err(_) => {
+            *g = None;
+            "HANG".to_string()
+        }
     }
 }
 
